@@ -66,11 +66,22 @@ def case_center(run, i):
             cols["weight"].append(float(rng.uniform(0.1, 1)))
     if i % 3 == 0:
         del cols["depth"]
-    run.begin_case("center", i, cls=f"center:style{style}")
+    # row order: genome order; every chromosome in two separate blocks (targets stacked on antitargets without re-sorting); shuffled
+    order_kind = ["sorted", "sorted", "stacked", "shuffled"][(i // 5) % 4]
+    n_rows = len(cols["log2"])
+    if order_kind == "stacked":
+        half = rng.random(n_rows) < 0.5
+        perm = np.concatenate([np.nonzero(half)[0], np.nonzero(~half)[0]])
+    elif order_kind == "shuffled":
+        perm = rng.permutation(n_rows)
+    else:
+        perm = np.arange(n_rows)
+    use_cols = {k: [v[j] for j in perm] for k, v in cols.items()}
+    run.begin_case("center", i, cls=f"center:style{style}:{order_kind}")
     for est in EST:
         for by_chrom in (True, False):
             skip_low = bool(rng.integers(0, 2))
-            cna = make_cna(cols, odd=(i % 3 == 1))
+            cna = make_cna(use_cols, odd=(i % 3 == 1), meta="none" if i % 4 == 1 else None)
             try:
                 cna.center_all(est, by_chrom, skip_low, False, par)
             except Exception:
@@ -109,8 +120,9 @@ def case_sex(run, i):
         del cols["weight"]
     truth = {"female": female, "male_ref": male_ref, "has_y": has_y, "weights": weights, "sd": sd}
     run.begin_case("sex", i, cls=f"sex:{'F' if female else 'M'}:{'maleref' if male_ref else 'femaleref'}", sex=truth)
-    cna = make_cna(cols, meta={"sample_id": "S", "filename": "S.cnr"}, odd=(i % 3 == 1))
-    for fn in (lambda: cna.guess_xx(male_ref, None, False), lambda: K.do_sex([cna], male_ref, None),
+    cna = make_cna(cols, meta=("none" if i % 4 == 1 else {"sample_id": "S", "filename": "S.cnr"}), odd=(i % 3 == 1))
+    # the `sex` report names each sample's file, so it is only given tables that carry their metadata
+    for fn in (lambda: cna.guess_xx(male_ref, None, False), (lambda: K.do_sex([cna], male_ref, None)) if i % 4 != 1 else (lambda: None),
                lambda: cna.shift_xx(male_ref, None), lambda: cna.shift_xx(male_ref, female), lambda: cna.shift_xx(not male_ref, female),
                lambda: cna.expect_flat_log2(male_ref), lambda: cna.expect_flat_log2(not male_ref)):
         try:
@@ -172,5 +184,5 @@ def case_sex(run, i):
 
 WORKLOADS = {"center": (_n_center, case_center), "sex": (_n_sex, case_sex)}
 _Q = {"cli.sex[report]|held": 40, "cli.call-center[plumbing]|held": 40, "CopyNumArray.center_all|held": 1500, "CopyNumArray.guess_xx|held": 600, "CopyNumArray.compare_sex_chromosomes|held": 1200,
-      "commands.do_sex|held": 600, "CopyNumArray.shift_xx|held": 1800, "CopyNumArray.expect_flat_log2|held": 1200}
+      "commands.do_sex|held": 450, "CopyNumArray.shift_xx|held": 1800, "CopyNumArray.expect_flat_log2|held": 1200}
 QUOTAS = {"quick": _Q, "thorough": _Q}
